@@ -1,123 +1,148 @@
 (* C19 — The printed KAURI tree is a faithful description of the fitted tree.
-   Statements only; every proof is [exact <lemma of Proofs/KauriPrint.v>].
+   Statements only; every proof is [exact <lemma of Proofs/KauriPrintGen.v>].
+   The statements are about the REGENERATED definitions of Gen/KauriPrintRules.v (gen_empty_tree,
+   gen_add_child, gen_predict, gen_render, gen_used_features, gen_names_guard_rejects,
+   gen_print_kauri_tree), which translator/tr_kauriprint.py rewrites from gemclus/tree/kauri.py on
+   every build; C19_regenerated_rules_are_documented pins them to the hand-written model.
    T = type of thresholds / feature values with an ARBITRARY comparison leb (so the statements
    hold for binary64 as they stand), N = type of user feature names.  [wf] is the shape invariant
    of the arrays; C19_built_wellformed shows it holds after any sequence of _add_child calls. *)
 From Coq Require Import List Arith ZArith.
-From GV Require Import Model.KauriPrint Proofs.KauriPrint.
+From GV Require Import Model.KauriPrint Gen.KauriPrintRules Proofs.KauriPrint Proofs.KauriPrintGen.
 Import ListNotations.
+
+(* drift detector: what the source says now is, function by function and for all inputs, the documented
+   hand-written model (Tree.__init__, _add_child, predict per row, print_node, the names guard, the guard cascade) *)
+Theorem C19_regenerated_rules_are_documented : forall (T N : Type),
+  @gen_empty_tree T = empty_tree /\
+  (forall (t : tree T) father s, gen_add_child t father s = add_child t father s) /\
+  (forall leb fuel (t : tree T) x node, gen_predict_node leb fuel t x node = predict_node leb fuel t x node) /\
+  (forall leb (t : tree T) x, gen_predict leb t x = predict leb t x) /\
+  (forall fuel (t : tree T) (names : option (list N)) node, gen_render_node fuel t names node = render_node fuel t names node) /\
+  (forall (t : tree T) (names : option (list N)), gen_render t names = render t names) /\
+  (forall t : tree T, gen_used_features t = used_features t) /\
+  (forall (t : tree T) (ns : list N), gen_names_guard_rejects t ns = names_guard_rejects t ns) /\
+  (forall (o : obj T) (na : names_arg N), gen_print_kauri_tree o na = print_kauri_tree o na).
+Proof. exact @regenerated_rules_are_documented. Qed.
 
 (* every tree produced from Tree() by _add_child calls (any fathers, any splits) is well-formed:
    the hypotheses [wf t] below are never vacuous for a fitted model *)
-Theorem C19_built_wellformed : forall (T : Type) (t : tree T), built t -> wf t.
-Proof. exact @built_wf. Qed.
+Theorem C19_built_wellformed : forall (T : Type) (t : tree T), gen_built t -> wf t.
+Proof. exact @gen_built_wf. Qed.
 
 Theorem C19_build_is_built : forall (T : Type) (ops : list (nat * split T)) (t : tree T),
-  build ops = Some t -> built t.
-Proof. exact @build_built. Qed.
+  build ops = Some t -> gen_built t.
+Proof. exact @build_gen_built. Qed.
 
 (* the text is complete and readable: printing succeeds, and reading the printed lines back by
    their depth prefixes yields exactly the nested rules the arrays stand for *)
 Theorem C19_parse_render_roundtrip : forall (T N : Type) (t : tree T) (names : option (list N)),
-  wf t -> names_cover t names ->
-  exists toks r, render t names = Some toks /\ abs_tree t names = Some r /\ parse toks = Some r.
-Proof. exact @parse_render_roundtrip. Qed.
+  wf t -> gen_names_cover t names ->
+  exists toks r, gen_render t names = Some toks /\ abs_tree t names = Some r /\ parse toks = Some r.
+Proof. exact @gen_parse_render_roundtrip. Qed.
 
 (* applying those rules to any point gives the cluster predict gives — for every comparison leb,
    every point x, every reader valuation that finds x[f] under the label printed for f *)
 Theorem C19_eval_is_predict : forall (T N : Type) (leb : T -> T -> bool) (t : tree T) (names : option (list N))
   (r : rules T N) (x : nat -> T) (val : label N -> T),
-  wf t -> names_cover t names -> abs_tree t names = Some r -> val_agrees t names val x ->
-  exists c, predict leb t x = Some c /\ eval_rules leb val r = Some c.
-Proof. exact @eval_abs_is_predict. Qed.
+  wf t -> gen_names_cover t names -> abs_tree t names = Some r -> gen_val_agrees t names val x ->
+  exists c, gen_predict leb t x = Some c /\ eval_rules leb val r = Some c.
+Proof. exact @gen_eval_abs_is_predict. Qed.
 
 (* the whole chain print -> read back -> apply *)
 Theorem C19_read_back_is_predict : forall (T N : Type) (leb : T -> T -> bool) (t : tree T) (names : option (list N))
   (x : nat -> T) (val : label N -> T),
-  wf t -> names_cover t names -> val_agrees t names val x ->
-  exists c, predict leb t x = Some c /\ read_back leb t names val = Some c.
-Proof. exact @read_back_is_predict. Qed.
+  wf t -> gen_names_cover t names -> gen_val_agrees t names val x ->
+  exists c, gen_predict leb t x = Some c /\ gen_read_back leb t names val = Some c.
+Proof. exact @gen_read_back_is_predict. Qed.
 
 (* the two concrete readers satisfy the valuation hypothesis: "X[:, f]" read as column f; a user
    name read as the column carrying that name, provided a used feature's name is not reused *)
 Theorem C19_default_valuation : forall (T N : Type) (t : tree T) (x : nat -> T) (dflt : T),
-  val_agrees t (@None (list N)) (val_default x dflt) x.
-Proof. exact @val_default_agrees. Qed.
+  gen_val_agrees t (@None (list N)) (val_default x dflt) x.
+Proof. exact @gen_val_default_agrees. Qed.
 
 Theorem C19_names_valuation : forall (T N : Type) (t : tree T) (eqb : N -> N -> bool) (ns : list N) (x : nat -> T) (dflt : T),
   (forall a b, eqb a b = true <-> a = b) ->
-  (forall f g nm, In f (used_features t) -> nth_error ns f = Some nm -> nth_error ns g = Some nm -> g = f) ->
-  val_agrees t (Some ns) (val_names eqb ns x dflt) x.
-Proof. exact @val_names_agrees. Qed.
+  (forall f g nm, In f (gen_used_features t) -> nth_error ns f = Some nm -> nth_error ns g = Some nm -> g = f) ->
+  gen_val_agrees t (Some ns) (val_names eqb ns x dflt) x.
+Proof. exact @gen_val_names_agrees. Qed.
 
 (* the name printed on a rule line is the entry of the user's list at the index of the feature that
    node tests (and the line carries that node's depth and threshold) *)
 Theorem C19_names_label_used_features : forall (T N : Type) (t : tree T) (ns : list N) (toks : list (token T N)),
-  print_kauri_tree (Fitted t) (NList ns) = Printed toks ->
+  gen_print_kauri_tree (Fitted t) (NList ns) = Printed toks ->
   forall d lab th c, In (TRule d lab th c) toks ->
   exists node f nm, nth_error (features t) node = Some (Some f) /\ nth_error (thresholds t) node = Some (Some th) /\
                     nth_error (depths t) node = Some d /\ nth_error ns f = Some nm /\ lab = LName nm.
-Proof. exact @names_label_used_features. Qed.
+Proof. exact @gen_names_label_used_features. Qed.
 
 Theorem C19_default_labels : forall (T N : Type) (t : tree T) (toks : list (token T N)),
-  print_kauri_tree (Fitted t) (@NAbsent N) = Printed toks ->
+  gen_print_kauri_tree (Fitted t) (@NAbsent N) = Printed toks ->
   forall d lab th c, In (TRule d lab th c) toks ->
   exists node f, nth_error (features t) node = Some (Some f) /\ nth_error (thresholds t) node = Some (Some th) /\
                  nth_error (depths t) node = Some d /\ lab = LIdx f.
-Proof. exact @default_labels. Qed.
+Proof. exact @gen_default_labels. Qed.
 
 (* the guard as implemented (len(names) <= max(used)) rejects exactly when some used index has no name *)
 Theorem C19_names_guard_decision : forall (T N : Type) (t : tree T) (ns : list N),
-  names_guard_rejects t ns = true <-> exists f, In f (used_features t) /\ nth_error ns f = None.
-Proof. exact @guard_spec. Qed.
+  gen_names_guard_rejects t ns = true <-> exists f, In f (gen_used_features t) /\ nth_error ns f = None.
+Proof. exact @gen_guard_spec. Qed.
 
 (* too few names: rejected, nothing printed; enough names: the complete readable text is printed *)
 Theorem C19_too_few_names_rejected : forall (T N : Type) (t : tree T) (ns : list N), wf t ->
-  ((exists f, In f (used_features t) /\ nth_error ns f = None) ->
-     print_kauri_tree (Fitted t) (NList ns) = ErrNames) /\
-  (~ (exists f, In f (used_features t) /\ nth_error ns f = None) ->
-     exists toks r, print_kauri_tree (Fitted t) (NList ns) = Printed toks /\
+  ((exists f, In f (gen_used_features t) /\ nth_error ns f = None) ->
+     gen_print_kauri_tree (Fitted t) (NList ns) = ErrNames) /\
+  (~ (exists f, In f (gen_used_features t) /\ nth_error ns f = None) ->
+     exists toks r, gen_print_kauri_tree (Fitted t) (NList ns) = Printed toks /\
                     abs_tree t (Some ns) = Some r /\ parse toks = Some r).
-Proof. exact @too_few_names_rejected. Qed.
+Proof. exact @gen_too_few_names_rejected. Qed.
 
 Theorem C19_absent_names_printed : forall (T N : Type) (t : tree T), wf t ->
-  exists toks r, print_kauri_tree (Fitted t) (@NAbsent N) = Printed toks /\ abs_tree t None = Some r /\ parse toks = Some r.
-Proof. exact @absent_names_printed. Qed.
+  exists toks r, gen_print_kauri_tree (Fitted t) (@NAbsent N) = Printed toks /\ abs_tree t None = Some r /\ parse toks = Some r.
+Proof. exact @gen_absent_names_printed. Qed.
 
 (* the printer never dies after printing part of a built tree *)
 Theorem C19_never_half_printed : forall (T N : Type) (t : tree T) (na : names_arg N), wf t ->
-  print_kauri_tree (Fitted t) na <> ErrIndex.
-Proof. exact @no_crash. Qed.
+  gen_print_kauri_tree (Fitted t) na <> ErrIndex.
+Proof. exact @gen_no_crash. Qed.
 
 (* foreign objects and unfitted estimators are refused; text only for a fitted Kauri *)
 Theorem C19_guards : forall (T N : Type) (o : obj T) (na : names_arg N),
-  (o = Foreign -> print_kauri_tree o na = ErrParam) /\
-  (na = NBad -> print_kauri_tree o na = ErrParam) /\
-  (o = Unfitted -> na <> NBad -> print_kauri_tree o na = ErrNotFitted) /\
-  (forall toks, print_kauri_tree o na = Printed toks -> exists t, o = Fitted t /\ na <> NBad).
-Proof. exact @guards. Qed.
+  (o = Foreign -> gen_print_kauri_tree o na = ErrParam) /\
+  (na = NBad -> gen_print_kauri_tree o na = ErrParam) /\
+  (o = Unfitted -> na <> NBad -> gen_print_kauri_tree o na = ErrNotFitted) /\
+  (forall toks, gen_print_kauri_tree o na = Printed toks -> exists t, o = Fitted t /\ na <> NBad).
+Proof. exact @gen_guards. Qed.
 
-(* non-vacuity: a concrete 5-node tree built by two _add_child calls (T = Z, names = numbers) is
-   well-formed, its text is the expected 11 lines, names [7;8] are too few for feature 2 *)
+(* non-vacuity: a concrete 5-node tree built by two regenerated _add_child calls (T = Z, names = numbers)
+   is well-formed, its text is the expected 12 lines, names [7;8] are too few for feature 2 *)
 Example C19_nonvacuous :
-  let ops := [(0, mkSplit 2 5%Z 0 1); (2, mkSplit 0 (-3)%Z 1 2)] in
-  exists t : tree Z, build ops = Some t /\ wf t /\ names_cover t (Some [7; 8; 9]) /\
-    render t (Some [7; 8; 9]) =
+  exists t1 t : tree Z,
+    gen_add_child gen_empty_tree 0 (mkSplit 2 5%Z 0 1) = Some t1 /\ gen_add_child t1 2 (mkSplit 0 (-3)%Z 1 2) = Some t /\
+    gen_built t /\ wf t /\ gen_names_cover t (Some [7; 8; 9]) /\
+    gen_render t (Some [7; 8; 9]) =
       Some [TNode 0 0; TRule 0 (LName 9) 5%Z LE; TNode 1 1; TCluster 1 0; TRule 0 (LName 9) 5%Z GT;
             TNode 1 2; TRule 1 (LName 7) (-3)%Z LE; TNode 2 3; TCluster 2 1; TRule 1 (LName 7) (-3)%Z GT;
             TNode 2 4; TCluster 2 2] /\
-    read_back Z.leb t (@None (list nat)) (val_default (fun f => Z.of_nat (10 * f)) 0%Z) = Some 2 /\
-    print_kauri_tree (Fitted t) (NList [7; 8]) = ErrNames.
+    gen_read_back Z.leb t (@None (list nat)) (val_default (fun f => Z.of_nat (10 * f)) 0%Z) = Some 2 /\
+    gen_print_kauri_tree (Fitted t) (NList [7; 8]) = ErrNames.
 Proof.
-  cbv zeta.
+  exists (mkTree [1; -1; -1]%Z [2; -1; -1]%Z [Some 2; None; None] [Some 5%Z; None; None] [0; 0; 1] [0; 1; 1] 3).
   exists (mkTree [1; -1; 3; -1; -1]%Z [2; -1; 4; -1; -1]%Z [Some 2; None; Some 0; None; None]
                  [Some 5%Z; None; Some (-3)%Z; None; None] [0; 0; 1; 1; 2] [0; 1; 1; 2; 2] 5).
-  split; [vm_compute; reflexivity|].
-  split; [apply built_wf; apply (build_built [(0, mkSplit 2 5%Z 0 1); (2, mkSplit 0 (-3)%Z 1 2)]); vm_compute; reflexivity|].
+  split; [vm_compute; reflexivity|]. split; [vm_compute; reflexivity|].
+  assert (B : gen_built (mkTree [1; -1; 3; -1; -1]%Z [2; -1; 4; -1; -1]%Z [Some 2; None; Some 0; None; None]
+                 [Some 5%Z; None; Some (-3)%Z; None; None] [0; 0; 1; 1; 2] [0; 1; 1; 2; 2] 5)).
+  { apply (gen_built_add (mkTree [1; -1; -1]%Z [2; -1; -1]%Z [Some 2; None; None] [Some 5%Z; None; None] [0; 0; 1] [0; 1; 1] 3)
+                         2 (mkSplit 0 (-3)%Z 1 2)); [|vm_compute; reflexivity].
+    apply (gen_built_add gen_empty_tree 0 (mkSplit 2 5%Z 0 1)); [apply gen_built_empty | vm_compute; reflexivity]. }
+  split; [exact B|]. split; [exact (gen_built_wf _ B)|].
   split; [apply guard_pass_cover; vm_compute; reflexivity|].
   split; [vm_compute; reflexivity|]. split; vm_compute; reflexivity.
 Qed.
 
+Print Assumptions C19_regenerated_rules_are_documented.
 Print Assumptions C19_built_wellformed.
 Print Assumptions C19_build_is_built.
 Print Assumptions C19_parse_render_roundtrip.
